@@ -2,13 +2,29 @@ import time, vf
 PID = "C10"
 H = vf.VERIF + "/checks/C10/harness.cpp"
 SCHED = [vf.VERIF + "/engine/sched/sched.cpp", vf.VERIF + "/engine/sched/log_stub.cpp"]
-# patterns 10+p: two sessions on one AsyncPipe object (initialize/cleanup twice), second session = pattern p
-# (buff_size, min, max, pattern, threads)   patterns 0,1: one producer (3 threads); 2,3: two producers (4 threads); 4: three producers
+# (buff_size, min, max, pattern code OLA)   - see harness.cpp:
+#   A = append pattern: 0,1,6: one producer (3 threads); 2,3,5,7: two producers (4 threads); 4: three producers; 6,7 contain zero-length appends
+#   L = life cycle: 0 one session; 1 two sessions, same configuration; 3 rejected configurations offered to initialize() first, cleanup() twice;
+#       4 destroyed with pending data instead of cleanup(); 5,6 two full sessions with different configurations
+#   O = 1: initialize() before setCallback()
 CFG1 = [(1,1,1,0),(1,1,2,0),(2,1,1,0),(2,1,2,1),(2,2,3,0),(4,1,2,1),(1,1,1,1),(1,1,1,10),(2,1,2,10),(2,2,3,10),(2,1,2,11)]
 CFG2 = [(1,1,1,2),(2,1,2,2),(2,1,1,3),(2,2,3,3),(4,1,2,3),(2,1,2,5),(1,1,1,5),(2,1,2,12)]
 CFG3 = [(2,1,2,4)]
-def cmds(exe, cfgs, bound, tagp, only):
-    c = [("%s:b%d_%d_%d_p%d" % ((tagp,) + s), [exe] + [str(x) for x in s] + [str(bound)]) for s in cfgs]
+# added after the gap audit; explored one bound lower than CFG1/CFG2
+CFG1N = [(1,1,3,0),(2,2,2,0),(4,2,2,0),                    # pool grows/shrinks by two buffers; min == max > 1; 12 distinct bytes through 4-byte buffers
+         (1,1,1,100),(2,1,2,101),(2,2,3,110),             # initialize() before setCallback(), one and two sessions
+         (1,1,1,30),(2,1,2,131),                          # refused initialize() calls first
+         (1,1,1,40),(2,1,2,41),(2,2,3,140),               # destructor instead of cleanup()
+         (1,1,1,6),(2,1,2,6),(2,1,1,106)]                 # zero-length appends
+CFG1S = [(1,1,1,50),(2,1,2,50),(2,2,3,61),(1,1,2,160)]    # a full first session, then a second one under another configuration (expensive: two full sessions)
+CFG2N = [(2,1,2,7),(2,1,2,102),(2,1,1,43)]                # two producers: zero-length lockless parts, initialize() first, destructor
+CFG2S = [(2,1,2,52)]                                      # two producers in the second session of a re-configured pipe
+# spurious condition-variable wake-ups (engine S option SCHED_SPURIOUS=1: one per execution, counted as a deviation) where a producer blocks at the buffer limit
+SPUR1 = [(1,1,1,0),(2,1,1,0)]
+SPUR2 = [(2,1,1,3)]
+SP = {"SCHED_SPURIOUS": "1"}
+def cmds(exe, cfgs, bound, tagp, only, env=None):
+    c = [("%s:b%d_%d_%d_p%d" % ((tagp,) + s), [exe] + [str(x) for x in s] + [str(bound)], env) for s in cfgs]
     return [x for x in c if not only or x[0].split(":")[1] == only]
 def main(tier, args):
     t0 = time.time()
@@ -16,22 +32,37 @@ def main(tier, args):
     asan = vf.build("C10/sched_asan", [H], [], mode="asan", plain_srcs=SCHED)
     tsan = vf.build("C10/sched_tsan", [H], [], mode="tsan", plain_srcs=SCHED)
     res = vf.Result(); log = open(vf.BUILD + "/C10/log.txt", "w")
+    o = args.only
     if tier == "quick":
         b1, b2, b3, dl = 2, 1, 0, 90
-        jobs = (cmds(plain, CFG1, 2, "plain", args.only) + cmds(plain, CFG2, 1, "plain", args.only) + cmds(plain, CFG3, 0, "plain", args.only)
-                + cmds(asan, CFG1, 1, "asan", args.only) + cmds(asan, CFG2, 0, "asan", args.only)
-                + cmds(tsan, CFG1[:4], 1, "tsan", args.only) + cmds(tsan, CFG1[4:] + CFG2, 0, "tsan", args.only))
-        ba, bt = 1, 1
+        jobs = (cmds(plain, CFG1, 2, "plain", o) + cmds(plain, CFG2, 1, "plain", o) + cmds(plain, CFG3, 0, "plain", o)
+                + cmds(plain, CFG1N + CFG1S, 1, "plain", o) + cmds(plain, CFG2N, 1, "plain", o) + cmds(plain, CFG2S, 0, "plain", o)
+                + cmds(plain, SPUR1, 1, "plain-spur", o, SP)
+                + cmds(asan, CFG1 + CFG1N, 1, "asan", o) + cmds(asan, CFG2 + CFG1S + CFG2N + CFG2S + CFG3, 0, "asan", o)
+                + cmds(tsan, CFG1[:4], 1, "tsan", o) + cmds(tsan, CFG1[4:] + CFG2 + CFG1N + CFG1S + CFG2N + CFG2S + CFG3, 0, "tsan", o))
+        newb = "<= 1 (1 producer; two-producer second session of a re-configured pipe: 0)"
+        nsp, spb, ba, bt = len(SPUR1), "1", 1, 1
     else:
         b1, b2, b3, dl = 3, 2, 1, 1200
-        jobs = (cmds(plain, CFG1, 3, "plain", args.only) + cmds(plain, CFG2, 2, "plain", args.only) + cmds(plain, CFG3, 1, "plain", args.only)
-                + cmds(asan, CFG1, 2, "asan", args.only) + cmds(asan, CFG2, 1, "asan", args.only)
-                + cmds(tsan, CFG1, 2, "tsan", args.only) + cmds(tsan, CFG2, 1, "tsan", args.only))
-        ba, bt = 2, 2
+        jobs = (cmds(plain, CFG1, 3, "plain", o) + cmds(plain, CFG2, 2, "plain", o) + cmds(plain, CFG3, 1, "plain", o)
+                + cmds(plain, CFG1N + CFG1S[:2], 2, "plain", o) + cmds(plain, CFG1S[2:] + CFG2N + CFG2S, 1, "plain", o)
+                + cmds(plain, SPUR1, 2, "plain-spur", o, SP) + cmds(plain, SPUR2, 1, "plain-spur", o, SP)
+                + cmds(asan, CFG1, 2, "asan", o) + cmds(asan, CFG2 + CFG1N, 1, "asan", o) + cmds(asan, CFG1S + CFG2N + CFG2S + CFG3, 0, "asan", o)
+                + cmds(tsan, CFG1, 2, "tsan", o) + cmds(tsan, CFG2 + CFG1N, 1, "tsan", o) + cmds(tsan, CFG1S + CFG2N + CFG2S + CFG3, 0, "tsan", o))
+        newb = "<= 2 (1 producer; 2 of the 4 re-configured two-session ones: 1)"
+        nsp, spb, ba, bt = len(SPUR1 + SPUR2), "2 (1 producer) / 1 (2 producers)", 2, 2
     env = {"VERIF_DEADLINE_S": str(dl), "VERIF_WORKERS": "3", "TSAN_OPTIONS": "report_signal_unsafe=0:exitcode=0"}
     vf.run_procs(res, jobs, env=env, log=log, jobs=6)
     vf.finish(PID, tier, res, t0,
               rule="stateless DFS over all interleavings at mutex/trylock/condvar/thread operations of the real AsyncPipe (producers, background thread, cleanup), "
-                   "timed-flush expiry as a bounded deviation; preemptions+deviations <= %d (1 producer), <= %d (2 producers), <= %d (3 producers); ASan build <= %d; TSan under the scheduler <= %d; "
-                   "%d configurations (buffer size 1/2/4, min/max buffers, append sizes <,=,> buffer; 5 of them re-initialise the same pipe object for a second session)" % (b1, b2, b3, ba, bt, len(CFG1 + CFG2 + CFG3)),
-              assumptions=["appends concurrent with cleanup() are outside the property (DESIGN 1.7)", "sync points = pthread mutex/trylock/cond/create/join"])
+                   "timed-flush expiry as a bounded deviation; preemptions+deviations <= %d (1 producer), <= %d (2 producers), <= %d (3 producers) on the %d base configurations "
+                   "(buffer size 1/2/4, min/max buffers, append sizes <,=,> buffer and > whole pool, locked and lockless two-part appends; 5 of them re-initialise the same pipe object for a second session); "
+                   "%s / <= 1 (2 producers) on %d further configurations: pool growing/shrinking by two buffers and min==max>1, initialize() before setCallback(), "
+                   "refused initialize() calls (each rejected field, with and without cleanup() after the refusal) before the real session and cleanup() called twice, destruction with pending data instead of cleanup(), "
+                   "a second session under a different configuration (buffer size and pool limits both larger and smaller) after a full first session, zero-length appends (locked, and first/second/both lockless parts); "
+                   "%d configurations additionally with one spurious condition-variable wake-up per execution as a deviation, <= %s; ASan build <= %d; TSan under the scheduler <= %d (further configurations and 3 producers at lower bounds, down to 0)"
+                   % (b1, b2, b3, len(CFG1 + CFG2 + CFG3), newb, len(CFG1N + CFG1S + CFG2N + CFG2S), nsp, spb, ba, bt),
+              assumptions=["appends concurrent with cleanup() are outside the property (DESIGN 1.7)", "sync points = pthread mutex/trylock/cond/create/join",
+                           "destroying the pipe is read as a cleanup (async_pipe.h documents that destruction stops the thread and delivers all buffered data)",
+                           "the value initialize() returns for a rejected configuration is not judged - only that every cleanup() returns and the following session is lossless",
+                           "zero-size sink blocks are ignored (they do not change the concatenation)"])
